@@ -32,3 +32,5 @@ def run(ctx):
         querycamp.run(ctx, "C06")
         from .. import foreignread   # FOREIGN-BUT-VALID layouts: seeks and partitions on files whose data offset / data end come from parser steps the library's writer never exercises
         foreignread.run(ctx, "C06")
+        from .. import seekmatrix    # DETERMINISTIC block-seek matrix: every block codec x container x channel count x (stand in block L; seek into each of L+1..L+3, 2L+1, 2L+2, L, L-1, 0, last; read across its end)
+        seekmatrix.run(ctx, "C06")
